@@ -198,6 +198,12 @@ fn gen_ops(r: &mut Rng, fam: Family, lo: usize, hi: usize, so_far: &[Op]) -> Vec
 }
 
 pub fn gen_scenario(r: &mut Rng, small: bool) -> Scenario {
+    gen_scenario_kind(r, small, None)
+}
+
+/// `force`: Some(0) = only S1 pipelines (no two threads ever run at the same time: build on one
+/// thread, mutate on the next, render on the last — deterministic also on real threads)
+pub fn gen_scenario_kind(r: &mut Rng, small: bool, force: Option<usize>) -> Scenario {
     let fam = if r.pct(if small { 80 } else { 35 }) { Family::Select } else { *r.pick(ALL_FAMILIES) };
     let depth = if small { 1 } else { 2 };
     let mut base = gen_inline_log(r, fam, depth, true);
@@ -236,7 +242,10 @@ pub fn gen_scenario(r: &mut Rng, small: bool) -> Scenario {
     }
     let hi = if small { 2 } else { 5 };
     // the small (Miri) mix favours scenarios in which several threads render shared structure
-    let kind = if small {
+    let kind = if let Some(k) = force {
+        let _ = r.below(20);
+        k
+    } else if small {
         match r.below(20) {
             0 | 1 => 0,
             2..=10 => 1,
